@@ -3,3 +3,4 @@ pub mod hooks;
 pub mod raw;
 pub mod units;
 pub mod psim;
+pub mod slog;
